@@ -394,7 +394,7 @@ class PDFPageInterpreter:
             return
 
         def get_colorspace(spec: object) -> Optional[PDFColorSpace]:
-            if isinstance(spec, list):
+            if isinstance(spec, list) and spec:
                 name = literal_name(spec[0])
             else:
                 name = literal_name(spec)
